@@ -618,7 +618,10 @@ example :
 
 /-! ## 6. the joined side: keys and routes of established hops never change
 
-No side condition is left: since fix 172d874 the relay branch of on_created refuses to pair when the outgoing circuit
+The only side condition is `JoinTimely` / `RunTimely`, and only for the `.join` event (a join_circuit that resumes
+after a suspending, overridden should_join_circuit): the policy did not hold the join back for longer than
+`unstable_timeout` after a competing join of the same id. With the default policy `.join` never occurs on its own
+(`on_create_is_guarded_join`). For everything else no side condition is left: since fix 172d874 the relay branch of on_created refuses to pair when the outgoing circuit
 id it reserved is meanwhile in use at the node (that id travels in a plaintext CREATE, so the next hop or the network
 could — and on the unrepaired tree did — make it collide on purpose; see `pairing_under_used_id_refused`).
 The events are the eleven of `Ev`; explicit removals (destroy from the neighbour, inactivity sweep, unload) are not
@@ -627,10 +630,16 @@ events of this model (properties C05/C09/C11): after such a removal the id is fr
 /-- a circuit id is never an exit socket and a relay route at the same time (on_create refuses ids in use; the relay
     branch of on_created removes the exit socket it converts and refuses outgoing ids in use) -/
 theorem joined_ids_disjoint (C : Crypto Tag Sess Blob) (n : Node Sess) (e : Ev Tag Blob)
-    (hd : Disjoint n) : Disjoint (step C n e).1 := by
+    (hd : Disjoint n) (hj : JoinTimely n e) : Disjoint (step C n e).1 := by
   intro cid
   rcases step_joined C n e with ⟨h1, h2⟩ | ⟨c1, h, he, hr, _, h1, h2⟩ |
-    ⟨cid', ident, key, auth, cands, env, req, ex, rfl, hcr, hex, _, hfr, hfe, h1, h2⟩
+    ⟨cid', ident, key, auth, cands, env, req, ex, rfl, hcr, hex, _, hfr, hfe, h1, h2⟩ |
+    ⟨jc, ji, jn, jk, jy, jo, jh, rfl, hcn, h1, h2⟩
+  rotate_left 3
+  · rw [h1, h2]
+    by_cases hc : cid = jc
+    · subst hc; exact Or.inr (hj hcn).2.1
+    · rw [upd_other _ _ hc]; exact hd cid
   · rw [h1, h2]; exact hd cid
   · rw [h1, h2]
     by_cases hc : cid = c1
@@ -651,10 +660,18 @@ example : Disjoint (Node.init 2 true true : Node Secret) := fun _ => Or.inl rfl
     expired, replayed EXTEND, late or forged CREATED, a CREATE squatting on a reserved outgoing id, timeouts …) the
     session keys held for circuit id `cid` stay the same -/
 theorem joined_keys_stable (C : Crypto Tag Sess Blob) (n : Node Sess) (e : Ev Tag Blob) (cid : Nat) (k : Sess)
-    (hk : entryKeys n cid = some k) : entryKeys (step C n e).1 cid = some k := by
+    (hj : JoinTimely n e) (hk : entryKeys n cid = some k) : entryKeys (step C n e).1 cid = some k := by
   unfold entryKeys at hk ⊢
   rcases step_joined C n e with ⟨h1, h2⟩ | ⟨c1, h, he, hr, _, h1, h2⟩ |
-    ⟨cid', ident, key, auth, cands, env, req, ex, rfl, hcr, hex, _, hfr, hfe, h1, h2⟩
+    ⟨cid', ident, key, auth, cands, env, req, ex, rfl, hcr, hex, _, hfr, hfe, h1, h2⟩ |
+    ⟨jc, ji, jn, jk, jy, jo, jh, rfl, hcn, h1, h2⟩
+  rotate_left 3
+  · rw [h1, h2]
+    by_cases hc : cid = jc
+    · subst hc
+      obtain ⟨je, jr, _⟩ := hj hcn
+      rw [je, jr] at hk; cases hk
+    · rw [upd_other _ _ hc]; exact hk
   · rw [h1, h2]; exact hk
   · rw [h1, h2]
     by_cases hc : cid = c1
@@ -677,7 +694,10 @@ theorem relay_route_stable (C : Crypto Tag Sess Blob) (n : Node Sess) (e : Ev Ta
     (rl : Relay Sess) (hd : Disjoint n) (hr : n.relays cid = some rl) :
     (step C n e).1.relays cid = some rl := by
   rcases step_joined C n e with ⟨_, h2⟩ | ⟨c1, h, _, _, _, _, h2⟩ |
-    ⟨cid', ident, key, auth, cands, env, req, ex, rfl, hcr, hex, _, hfr, _, _, h2⟩
+    ⟨cid', ident, key, auth, cands, env, req, ex, rfl, hcr, hex, _, hfr, _, _, h2⟩ |
+    ⟨jc, ji, jn, jk, jy, jo, jh, rfl, _, _, h2⟩
+  rotate_left 3
+  · rw [h2]; exact hr
   · rw [h2]; exact hr
   · rw [h2]; exact hr
   · rw [h2]
@@ -694,16 +714,45 @@ theorem relay_route_stable (C : Crypto Tag Sess Blob) (n : Node Sess) (e : Ev Ta
 
 /-- all histories, from any state in which no id is exit socket and relay route at once (in particular `Node.init`) -/
 theorem joined_state_stable (C : Crypto Tag Sess Blob) (evs : List (Ev Tag Blob)) (n : Node Sess)
-    (hd : Disjoint n) :
+    (hd : Disjoint n) (hj : RunTimely C n evs) :
     Disjoint (run C n evs) ∧
     (∀ cid k, entryKeys n cid = some k → entryKeys (run C n evs) cid = some k) ∧
     (∀ cid rl, n.relays cid = some rl → (run C n evs).relays cid = some rl) := by
   induction evs generalizing n with
   | nil => exact ⟨hd, fun _ _ h => h, fun _ _ h => h⟩
   | cons e es ih =>
-    obtain ⟨i1, i2, i3⟩ := ih (step C n e).1 (joined_ids_disjoint C n e hd)
-    exact ⟨i1, fun cid k h => i2 cid k (joined_keys_stable C n e cid k h),
+    obtain ⟨hj1, hj2⟩ := hj
+    obtain ⟨i1, i2, i3⟩ := ih (step C n e).1 (joined_ids_disjoint C n e hd hj1) hj2
+    exact ⟨i1, fun cid k h => i2 cid k (joined_keys_stable C n e cid k hj1 h),
       fun cid rl h => i3 cid rl (relay_route_stable C n e cid rl hd h)⟩
+
+/-- a second join of an id that is being joined already (a duplicated CREATE that passed the guards of on_create
+    while the first one was still suspended in should_join_circuit) writes nothing and answers nothing: the
+    CreatedRequestCache constructor refuses BEFORE the exit socket is installed -/
+theorem second_join_refused (C : Crypto Tag Sess Blob) (n : Node Sess) (cid ident nodePk : Nat)
+    (key : Option Wire) (y : Key) (offered : List Key) (hc : (n.created cid).isSome) :
+    step C n (.join cid ident nodePk key y offered) = (n, []) := by
+  cases key with
+  | none => simp [step, joinCircuit]
+  | some w => simp [step, joinCircuit, hc]
+
+/-- on_create with the default (non-suspending) policy is "guards, then join_circuit" -/
+theorem on_create_is_guarded_join (C : Crypto Tag Sess Blob) (n : Node Sess) (cid ident nodePk : Nat)
+    (key : Option Wire) (y : Key) (offered : List Key) :
+    step C n (.create cid ident nodePk key y offered) =
+      if n.canJoin && !(n.created cid).isSome &&
+          !((n.circuits cid).isSome || (n.relays cid).isSome || (n.exits cid).isSome)
+      then step C n (.join cid ident nodePk key y offered) else (n, []) := by
+  cases hj : n.canJoin <;> cases hc : (n.created cid).isSome <;>
+    cases hu : ((n.circuits cid).isSome || (n.relays cid).isSome || (n.exits cid).isSome) <;>
+    cases key <;> simp [step, onCreate, joinCircuit, hj, hc, hu]
+
+/-- non-vacuity: two copies of a CREATE passed the guards while suspended; the first join installs keys for
+    ephemeral 20, the second (ephemeral 21) changes nothing -/
+example :
+    let q := (step Free (Node.init 2 true true) (.join 77 555 1 (some ⟨10, 0⟩) 20 [3, 4, 4])).1
+    entryKeys (step Free q (.join 77 555 1 (some ⟨10, 0⟩) 21 [3, 4, 4])).1 77 = some [dh 10 20, dh 2 10] ∧
+      (q.created 77).isSome := by decide
 
 /-- the repaired guard: a CREATED that would be paired under an outgoing circuit id which is meanwhile in use at the
     relay (circuit, relay route or exit socket) only consumes the pending request -/
